@@ -74,6 +74,7 @@ class FakeSocket(object):
             raise OSError(errno.EBADF, 'send on closed socket')
         if self.send_error is not None:
             raise self.send_error(errno.EPIPE, 'Broken pipe')
+        self.sim.tick('send')
         self.sent.append(bytes(data))
         self.sim.wire_written(self, bytes(data))
 
@@ -368,6 +369,7 @@ class Sim(object):
 
             def action(event):
                 before = sm.current_state
+                sim.tick('action')
                 try:
                     return orig_action(event)
                 finally:
@@ -388,8 +390,8 @@ class Sim(object):
         s = self.current_stimulus
         if s is None:
             return None
-        if s[0] == 'bytes':
-            return ('bytes', len(s[1]))
+        if s[0].startswith('bytes'):
+            return (s[0], len(s[1]))
         if s[0] == 'user':
             return ('user', type(s[1]).__name__)
         return s
@@ -463,7 +465,7 @@ class Sim(object):
             kind = stim[0]
             if kind == 'user':
                 return stim[1]
-            if kind in ('bytes', 'close', 'reset'):
+            if kind in ('bytes', 'close', 'reset', 'bytes+close', 'bytes+reset'):
                 if not self.deliver_to_socket(stim):
                     continue      # nothing can arrive on a closed connection: skipped
                 raise queue.Empty
@@ -492,11 +494,12 @@ class Sim(object):
         if s is None or s.closed:
             self.skipped.append(self.pos - 1)
             return False
-        if stim[0] == 'bytes':
+        if stim[0].startswith('bytes'):
             s.inbound += stim[1]
-        elif stim[0] == 'close':
+        # 'bytes+close': the segment and the peer's FIN are both there when the provider looks
+        if stim[0].endswith('close'):
             s.peer_closed = True
-        else:
+        elif stim[0].endswith('reset'):
             s.reset = True
         return True
 
@@ -508,15 +511,15 @@ class Sim(object):
             nxt = self.peek_stimulus()
             if nxt is None:
                 raise EndOfScript()
-            if nxt[0] in ('bytes', 'close', 'reset'):
+            if nxt[0] in ('bytes', 'close', 'reset', 'bytes+close', 'bytes+reset'):
                 self.next_stimulus()
-                if nxt[0] == 'bytes':
-                    if not nxt[1]:
-                        continue
+                if nxt[0] == 'bytes' and not nxt[1]:
+                    continue
+                if nxt[0].startswith('bytes'):
                     sock.inbound += nxt[1]
-                elif nxt[0] == 'close':
+                if nxt[0].endswith('close'):
                     sock.peer_closed = True
-                else:
+                elif nxt[0].endswith('reset'):
                     sock.reset = True
                 return
             raise WouldBlockForever('blocking recv while next stimulus is %r' % (nxt[0],))
@@ -526,9 +529,9 @@ class Sim(object):
         if self.first_pending:
             # the first peer segment is already waiting when the loop starts
             nxt = self.peek_stimulus()
-            if nxt is not None and nxt[0] == 'bytes' and self.active_socket() is not None:
+            if nxt is not None and nxt[0].startswith('bytes') and self.active_socket() is not None:
                 self.next_stimulus()
-                self.active_socket().inbound += nxt[1]
+                self.deliver_to_socket(nxt)
         with patched(self):
             try:
                 self.provider.run()
